@@ -2770,6 +2770,15 @@ event_add_nolock_(struct event *ev, const struct timeval *tv,
 			res = evmap_signal_add_(base, (int)ev->ev_fd, ev);
 		if (res != -1)
 			event_queue_insert_inserted(base, ev);
+		if (res != -1 && tv == NULL &&
+		    !(ev->ev_flags & EVLIST_TIMEOUT) &&
+		    ev->ev_closure == EV_CLOSURE_EVENT_PERSIST) {
+			/* Added afresh and without a timeout: forget the
+			 * interval of an earlier add, or the first time the
+			 * event fires event_persist_closure() would arm a
+			 * timeout that nobody asked for. */
+			evutil_timerclear(&ev->ev_io_timeout);
+		}
 		if (res == 1) {
 			/* evmap says we need to notify the main thread. */
 			notify = 1;
